@@ -23,6 +23,7 @@ import json
 from fractions import Fraction
 from typing import Dict, List, Optional, Set, Tuple
 
+from engines import c38facts as cf
 from engines import pyfacts as pf
 from engines.common import AnalysisError, Ctx, read_repo
 
@@ -208,29 +209,17 @@ def check_roundtrip(ctx: Ctx, m: pf.Module, cls: ast.ClassDef, ser: List[str]) -
     n_pos = len(init.args.args) - 1
     required += [a.arg for a in init.args.args[1:][: n_pos - len(init.args.defaults)]]
     ctx.need(init.args.kwarg is None and init.args.vararg is None, '__init__ takes *args/**kwargs')
-    # which slot does each __init__ parameter initialise?
-    slot_of_param: Dict[str, str] = {}
-    param_of_slot: Dict[str, str] = {}
-    wraps_set: Set[str] = set()
-    for attr, node, _how in _mutations(init):
-        if isinstance(node, ast.Assign) and _self_attr_root(node.targets[0]) == attr and isinstance(node.targets[0], ast.Attribute):
-            used = [n.id for n in ast.walk(node.value) if isinstance(n, ast.Name) and n.id in params]
-            if len(set(used)) == 1:
-                slot_of_param.setdefault(used[0], attr)
-                param_of_slot.setdefault(attr, used[0])
-                if any(isinstance(c, ast.Call) and pf.dotted(c.func) in ('set', 'list', 'frozenset') for c in ast.walk(node.value)):
-                    wraps_set.add(used[0])
-    # `for vds in vdses: self._vdses[...].append(vds)`: parameter consumed through a loop
-    for st in pf.walk_shallow(init):
-        if isinstance(st, ast.For) and isinstance(st.iter, ast.Name) and st.iter.id in params:
-            for attr, _n, _h in _mutations_in(st):
-                slot_of_param.setdefault(st.iter.id, attr)
-                param_of_slot[attr] = st.iter.id
+    # which slot does each __init__ parameter initialise?  (a store through a property setter is the setter's body; a local is its definitions)
+    slot_of_param, param_of_slot, wraps_set, unrestored = _init_param_map(m, init)
 
     # (a) every serialised slot is written under the parameter that restores it
     for s in ser:
         cons = f'{F}::{CLS}.to_dict::{s}'
         p = param_of_slot.get(s)
+        if p is None and s in unrestored:
+            ctx.bad('R2', cons, f'slot `{s}` is listed in __serialized_slots__ but __init__ sets it to `{unrestored[s]}`, which uses no constructor parameter: '
+                    f'whatever the plan recorded for it, every reload (Decoder -> {CLS}(**obj)) starts from that value again', m.path, td.lineno)
+            continue
         if p is None:
             raise AnalysisError(f'{cons}: cannot tell which __init__ parameter initialises the slot')
         v = keys.get(p)
@@ -299,6 +288,57 @@ def check_roundtrip(ctx: Ctx, m: pf.Module, cls: ast.ClassDef, ser: List[str]) -
     ok = len(calls) == 1 and not calls[0].args and len(calls[0].keywords) == 1 and calls[0].keywords[0].arg is None and pf.nsrc(calls[0].keywords[0].value) == 'obj'
     dels = [pf.nsrc(t) for st in pf.walk_shallow(hook) if isinstance(st, ast.Delete) for t in st.targets]
     ctx.check(ok and "obj['name']" in dels, 'R2', f'{F}::Decoder._object_hook::constructs', f'the hook must delete obj[\'name\'] and return {CLS}(**obj)', m.path, hook.lineno)
+
+
+def _init_param_map(m: pf.Module, init: pf.FuncDef):
+    """(parameter -> slot, slot -> parameter, parameters normalised by set()/list(), serialised-looking slots set from no parameter).
+    Analysed on __init__ with property setters and helpers inlined, following locals to the parameters they are computed from."""
+    _m2, init_i, _il = cf.inline_with_setters(m, CLS, '__init__')
+    params = [a.arg for a in init_i.args.kwonlyargs] + [a.arg for a in init_i.args.args[1:]]
+    defs = pf.assignments(init_i)
+
+    def roots(e: ast.AST, seen: Tuple[str, ...] = ()) -> Set[str]:
+        out: Set[str] = set()
+        for n in ast.walk(e):
+            if isinstance(n, ast.Name) and isinstance(n.ctx, ast.Load):
+                if n.id in params and all(isinstance(d, ast.arg) for d in defs.get(n.id, [])):
+                    out.add(n.id)
+                elif n.id in defs and n.id not in seen:
+                    for d in defs[n.id]:
+                        if isinstance(d, ast.arg):
+                            out.add(n.id)
+                        elif isinstance(d, ast.expr):
+                            out |= roots(d, seen + (n.id,))
+        return out
+
+    slot_of_param: Dict[str, str] = {}
+    param_of_slot: Dict[str, str] = {}
+    wraps_set: Set[str] = set()
+    unrestored: Dict[str, str] = {}
+    by_slot: Dict[str, List[ast.Assign]] = {}
+    for attr, node, _how in _mutations(init_i):
+        if isinstance(node, ast.Assign) and _self_attr_root(node.targets[0]) == attr and isinstance(node.targets[0], ast.Attribute):
+            by_slot.setdefault(attr, []).append(node)
+    for attr, nodes in by_slot.items():
+        used: Set[str] = set()
+        for node in nodes:
+            used |= roots(node.value)
+        if len(used) == 1:
+            p = next(iter(used))
+            slot_of_param.setdefault(p, attr)
+            param_of_slot.setdefault(attr, p)
+            if any(isinstance(c, ast.Call) and pf.dotted(c.func) in ('set', 'list', 'frozenset') for node in nodes for c in ast.walk(node.value)):
+                wraps_set.add(p)
+        elif not used:
+            unrestored[attr] = pf.nsrc(nodes[-1].value)[:60]
+    # `for vds in vdses: self._vdses[...].append(vds)`: parameter consumed through a loop
+    for st in pf.walk_shallow(init_i):
+        if isinstance(st, ast.For) and isinstance(st.iter, ast.Name) and st.iter.id in params:
+            for attr, _n, _h in _mutations_in(st):
+                slot_of_param.setdefault(st.iter.id, attr)
+                param_of_slot[attr] = st.iter.id
+                unrestored.pop(attr, None)
+    return slot_of_param, param_of_slot, wraps_set, unrestored
 
 
 def _mutations_in(node: ast.AST) -> List[Tuple[str, ast.AST, str]]:
@@ -664,20 +704,814 @@ def check_partitioning(ctx: Ctx, m: pf.Module) -> None:
                   f'{nm} = {pf.nsrc(v)} is not a positive integer: math.ceil(contig_length / interval_size) divides by it', m.path, v.lineno)
 
 
+# ---------------------------------------------------------------------------------------------------------------------------
+# R6 / R9 / R10: where intermediates are written, what names them, when they are recorded and deleted
+# ---------------------------------------------------------------------------------------------------------------------------
+# callable name (last attribute) -> (positional index, keyword) of the path argument
+WRITERS = {'write': (0, 'output'), 'checkpoint': (0, 'output'), 'write_variant_datasets': (1, 'paths'), 'write_many': (0, 'output'),
+           'write_matrix_tables': (1, 'paths'), 'export': (0, 'output')}
+DELETERS = {'remove', 'rmtree', 'rm', 'rmdir', 'unlink', 'hadoop_rm', 'delete', 'remove_dir'}
+PLAN_ADD = {'append', 'extend', 'insert', 'add', 'update', 'setdefault'}
+
+
+class _Root:
+    """One step function (a method `step` calls) with helpers and setters inlined."""
+
+    def __init__(self, m: pf.Module, name: str):
+        self.name = name
+        self.m2, self.fn, self.il = cf.inline_with_setters(m, CLS, name)
+        self.cm = cf.ClassModel(self.m2, CLS)
+        cf.resolve_property_reads(self.fn, self.cm.getter_alias())
+        self.sym = cf.Sym(self.m2, self.cm, cf.named_tuples(self.m2))
+        self.g = pf.CFG(self.fn)
+        self.par: Dict[ast.AST, ast.AST] = {}
+        for a in ast.walk(self.fn):
+            for c in ast.iter_child_nodes(a):
+                self.par[c] = a
+
+    def in_loop(self, node: ast.AST) -> bool:
+        cur = self.par.get(node)
+        while cur is not None and cur is not self.fn:
+            if isinstance(cur, (ast.For, ast.AsyncFor, ast.While, ast.ListComp, ast.GeneratorExp, ast.SetComp, ast.DictComp)):
+                return True
+            cur = self.par.get(cur)
+        return False
+
+
+def _path_arg(c: ast.Call) -> Optional[ast.expr]:
+    pos, kw = WRITERS[c.func.attr]  # type: ignore[attr-defined]
+    for k in c.keywords:
+        if k.arg in (kw, 'path', 'paths'):
+            return k.value
+    return c.args[pos] if len(c.args) > pos else None
+
+
+def _overwrite(c: ast.Call) -> Optional[bool]:
+    for k in c.keywords:
+        if k.arg == 'overwrite':
+            return k.value.value if isinstance(k.value, ast.Constant) and isinstance(k.value.value, bool) else None
+    return False
+
+
+def _is_output(v: cf.Val) -> bool:
+    return v == ('slot', OUTPUT_SLOT[0]) or v == ('list', ('slot', OUTPUT_SLOT[0]))
+
+
+def _has_fresh(v: cf.Val) -> bool:
+    k = v[0]
+    if k == 'fresh':
+        return True
+    if k == 'alt':
+        return all(_has_fresh(x) for x in v[1])
+    if k == 'cat':
+        return any(_has_fresh(x) for x in v[1])
+    if k == 'det':
+        return any(_has_fresh(x) for x in v[2])
+    if k == 'list':
+        return _has_fresh(v[1])
+    return False
+
+
+def _step_roots(cm: cf.ClassModel) -> List[str]:
+    step = cm.methods.get('step')
+    if step is None:
+        raise AnalysisError(f'anchor vanished: {CLS}.step')
+    out: List[str] = []
+    for c in pf.calls_in(step):
+        a = cf.self_attr(c.func) if isinstance(c.func, ast.Attribute) else None
+        if a is not None and a in cm.methods and a not in out:
+            out.append(a)
+    return out
+
+
+def _slot_writes_outside_init(m: pf.Module, cm: cf.ClassModel, slot_or_props: Set[str]) -> List[Tuple[str, pf.FuncDef, ast.Assign, str]]:
+    """(qualified function, function, assignment, attribute) for every store `<x>.<attr> = v` / `<x>.<attr> op= v` with attr in the set, outside __init__."""
+    out = []
+    for q, fn in m.functions():
+        if q == f'{CLS}.__init__':
+            continue
+        for st in pf.walk_shallow(fn):
+            ts: List[ast.AST] = []
+            if isinstance(st, ast.Assign):
+                ts = [x for t in st.targets for x in (t.elts if isinstance(t, (ast.Tuple, ast.List)) else [t])]
+            elif isinstance(st, (ast.AugAssign, ast.AnnAssign)):
+                ts = [st.target]
+            for t in ts:
+                if isinstance(t, ast.Attribute) and isinstance(t.value, ast.Name) and t.attr in slot_or_props:
+                    out.append((q, fn, st, t.attr))
+    return out
+
+
+def _slot_facts(ctx: Ctx, m: pf.Module, cm: cf.ClassModel, ser: List[str], closure: List[str]):
+    """How each slot gets its value in a new object, and how the steps advance it."""
+    m_i, init_i, _il = cf.inline_with_setters(m, CLS, '__init__')
+    cm_i = cf.ClassModel(m_i, CLS)
+    sym_i = cf.Sym(m_i, cm_i, cf.named_tuples(m_i))
+    init_vals: Dict[str, List[cf.Val]] = {}
+    for st in pf.walk_shallow(init_i):
+        if isinstance(st, ast.Assign):
+            for t in st.targets:
+                a = cf.self_attr(t, init_i.args.args[0].arg)
+                if a is not None:
+                    init_vals.setdefault(_unmangle(a), []).append(sym_i.ev(st.value, init_i))
+    # counters: `self.S += c` (c >= 1) in a step function, and no other store to S there
+    counters: Dict[str, List[Tuple[str, ast.AST]]] = {}
+    other_stores: Dict[str, List[str]] = {}
+    for meth in closure:
+        fn = cm.methods.get(meth) or cm.getters.get(meth)
+        if fn is None:
+            continue
+        for attr, node, how in _mutations(fn):
+            attr = _unmangle(attr)
+            if isinstance(node, ast.AugAssign) and isinstance(node.target, ast.Attribute) and isinstance(node.op, ast.Add) \
+                    and isinstance(node.value, ast.Constant) and isinstance(node.value.value, int) and node.value.value >= 1:
+                counters.setdefault(attr, []).append((meth, node))
+            elif how == 'assigned' and isinstance(getattr(node, 'targets', [None])[0] if isinstance(node, ast.Assign) else getattr(node, 'target', None), ast.Attribute):
+                other_stores.setdefault(attr, []).append(meth)
+    return init_vals, counters, other_stores, sym_i
+
+
+def _unmangle(a: str) -> str:
+    pre = f'_{CLS}__'
+    return '__' + a[len(pre):] if a.startswith(pre) else a
+
+
+def _describe_component(slot: str, ser: List[str], init_vals, counters, other_stores, ext_bad: Dict[str, str]) -> Tuple[bool, bool, str]:
+    """(distinct across save/resume, advanced between steps, description)."""
+    is_counter = slot in counters and slot not in other_stores
+    if slot in ser:
+        if is_counter:
+            return True, True, f'self.{slot}: saved with the plan and advanced by the steps (persisted counter)'
+        return False, False, f'self.{slot}: saved with the plan and restored unchanged'
+    vals = init_vals.get(slot)
+    if not vals:
+        raise AnalysisError(f'{F}: path component self.{slot} is neither serialised nor initialised in __init__')
+    fresh = all(_has_fresh(v) for v in vals)
+    unknown = [x for v in vals for x in cf.leaves(v) if x[0] == 'unknown']
+    if not fresh and unknown:
+        raise AnalysisError(f'{F}::{CLS}.__init__: cannot classify the initial value of self.{slot}: `{cf.render(vals[-1])[:80]}`')
+    desc = cf.render(vals[-1])
+    if fresh and slot in ext_bad:
+        return False, is_counter, f'self.{slot}: fresh in __init__ ({desc}) but overwritten with a reproducible value by {ext_bad[slot]}'
+    if fresh:
+        return True, is_counter, f'self.{slot}: not saved; a new object draws {desc}'
+    srcs = sorted({x[1] for v in vals for x in cf.leaves(v) if x[0] == 'param'})
+    how = f'a deterministic function of the constructor argument(s) {srcs}, which the saved plan restores' if srcs else 'a constant'
+    return False, is_counter, (f'self.{slot}: not saved; every new object (so every resumed run) starts it at {desc} - {how}'
+                               + ('; the steps advance it only within one process' if is_counter else ''))
+
+
+def _implies_finished(test: ast.AST, label: str) -> bool:
+    """Taking the edge `label` out of `test` implies the `finished` property is true (plan exhausted)."""
+    def pos(t: ast.AST) -> bool:
+        return cf.self_attr(t) == 'finished'
+
+    def neg(t: ast.AST) -> bool:
+        return isinstance(t, ast.UnaryOp) and isinstance(t.op, ast.Not) and pos(t.operand)
+    if label == 'T':
+        return pos(test) or (isinstance(test, ast.BoolOp) and isinstance(test.op, ast.And) and any(pos(v) for v in test.values))
+    if label == 'F':
+        return neg(test) or (isinstance(test, ast.BoolOp) and isinstance(test.op, ast.Or) and any(neg(v) for v in test.values))
+    return False
+
+
+def check_paths(ctx: Ctx, m: pf.Module, cls: ast.ClassDef, ser: List[str], slots: List[str]) -> None:
+    cm = cf.ClassModel(m, CLS)
+    closure = _step_closure({**cm.getters, **cm.methods})
+    slot_of_param, _pos, _ws, _un = _init_param_map(m, cm.methods['__init__'])
+    ctx.need('output_path' in slot_of_param and 'save_path' in slot_of_param, f'{F}::{CLS}.__init__: output_path / save_path parameters not found')
+    OUTPUT_SLOT[0], SAVE_SLOT[0] = slot_of_param['output_path'], slot_of_param['save_path']
+    init_vals, counters, other_stores, _sym_i = _slot_facts(ctx, m, cm, ser, closure)
+    roots = [_Root(m, r) for r in _step_roots(cm)]
+    ctx.need(roots, f'{CLS}.step calls no step function')
+    for r in roots:
+        ctx.need(not r.il.skipped, f'{F}::{CLS}.{r.name}: helper(s) that could not be inlined: {r.il.skipped[:3]}')
+    # stores to path components outside __init__ and the steps (e.g. `combiner._uuid = ...` after a load)
+    comp_slots: Set[str] = set()
+    writes = []  # (root, call, path value)
+    for r in roots:
+        for c in pf.calls_in(r.fn):
+            if isinstance(c.func, ast.Attribute) and c.func.attr in WRITERS:
+                pa = _path_arg(c)
+                if pa is None:
+                    continue
+                v = r.sym.ev(pa, r.fn)
+                writes.append((r, c, v))
+                if not _is_output(v):
+                    comp_slots |= {x[1] for x in cf.leaves(v) if x[0] == 'slot'}
+    ext_bad: Dict[str, str] = {}
+    for q, fn, st, attr in _slot_writes_outside_init(m, cm, comp_slots - set(ser)):
+        if q.startswith(CLS + '.') and q.split('.')[1] in closure:
+            continue
+        v = cf.Sym(m, cm if q.startswith(CLS + '.') else None, cf.named_tuples(m)).ev(getattr(st, 'value', None), fn)
+        if not _has_fresh(v):
+            ext_bad[attr] = f'{q} (`{pf.nsrc(st)[:70]}`)'
+    # job-counter discipline on `step` with everything inlined (names may clash there: only the control flow is used)
+    _ms, step_i, il_s = cf.inline_with_setters(m, CLS, 'step')
+    gs = pf.CFG(step_i)
+    inter_nodes = []
+    for c in pf.calls_in(step_i):
+        if isinstance(c.func, ast.Attribute) and c.func.attr in WRITERS:
+            pa = _path_arg(c)
+            if pa is not None and pf.nsrc(pa) != f'self.{OUTPUT_SLOT[0]}':
+                inter_nodes += gs.node_of(c)
+    n_inter = sum(1 for _r, _c, v in writes if not _is_output(v))
+    ctx.need(n_inter >= 1, f'{F}::{CLS}: no intermediate dataset write found in the step functions {[r.name for r in roots]}')
+    ctx.need(not il_s.skipped and len(inter_nodes) >= n_inter, f'{F}::{CLS}.step: could not inline the step functions ({il_s.skipped[:2]})')
+
+    def advanced_after_every_write(slot: str) -> Optional[List[pf.Node]]:
+        """None when every path from an intermediate write to the end of step() either bumps self.<slot> or leaves through a branch on
+        which the plan is exhausted; else a witness path."""
+        def bumps(n: pf.Node) -> bool:
+            a = n.ast
+            return isinstance(a, ast.AugAssign) and cf.self_attr(a.target) in (slot, f'_{CLS}{slot}') and isinstance(a.op, ast.Add)
+        for w in inter_nodes:
+            p = gs.path_avoiding(w, lambda n: n is gs.exit, bumps,
+                                 edge_ok=lambda a, b, lab: lab != 'exc' and not (a.kind == 'test' and _implies_finished(a.ast, lab)))
+            if p is not None:
+                return p
+        return None
+
+    for r, c, v in writes:
+        callee = pf.dotted(c.func) or ('.' + c.func.attr)  # type: ignore[attr-defined]
+        what = callee if not callee.split('.')[0].islower() or '.' not in callee else callee
+        what = what if callee.startswith(('hl.', 'hail.')) else '.' + c.func.attr  # type: ignore[attr-defined]
+        cons = f'{F}::{CLS}.{r.name}::{what}'
+        if _is_output(v):
+            continue
+        elem = v[1] if v[0] == 'list' else v
+        lv = list(cf.leaves(elem))
+        unknown = [x for x in lv if x[0] in ('unknown', 'param')]
+        shown = cf.render(elem)
+        ow = _overwrite(c)
+        ow_txt = ('written with overwrite=True, so the second write silently replaces the first' if ow else
+                  'written without overwrite=True, so the second write fails loudly - the resumed run cannot complete' if ow is False else
+                  'written with a computed overwrite flag')
+        comps = []
+        resume_ok = steps_ok = any(x[0] == 'fresh' for x in lv)
+        for sl in sorted({x[1] for x in lv if x[0] == 'slot'}):
+            a, b, d = _describe_component(sl, ser, init_vals, counters, other_stores, ext_bad)
+            comps.append(d)
+            resume_ok = resume_ok or a
+            if b and advanced_after_every_write(sl) is None:
+                steps_ok = True
+        if any(x[0] in ('slotelem', 'field') for x in lv):
+            comps.append('a path taken from a plan entry')
+        if any(x[0] == 'index' for x in lv):
+            comps.append('<index>: position within one step, restarts at 0 in every step')
+        # (a) across save / resume
+        if resume_ok:
+            ctx.ok('R6', cons + '::resume', {'path': shown, 'components': comps})
+        else:
+            ctx.need(not unknown, f'{cons}: cannot resolve path component(s) {[cf.render(x) for x in unknown][:3]} of `{shown}`')
+            ctx.bad('R6', cons + '::resume',
+                    f'intermediate path `{shown}` is not distinct across save/resume: no component is fresh per object or a persisted counter ['
+                    + '; '.join(comps) + f']. History: a run writes this path in some job N, records it in the plan, the plan is saved and the process stops; '
+                    f'{CLS}.load / new_combiner rebuilds the object with the same component values and its job N writes the very same path while the saved plan '
+                    f'still lists the earlier dataset as a pending input ({ow_txt}): inputs of the first run are lost and the later batch is merged twice',
+                    m.path, c.lineno)
+        # (b) across the steps of one process
+        if steps_ok:
+            ctx.ok('R6', cons + '::steps', {'path': shown})
+        else:
+            ctx.need(not unknown, f'{cons}: cannot resolve path component(s) {[cf.render(x) for x in unknown][:3]} of `{shown}`')
+            wit = None
+            for sl in sorted({x[1] for x in lv if x[0] == 'slot'}):
+                if sl in counters:
+                    wit = advanced_after_every_write(sl)
+            ctx.bad('R6', cons + '::steps',
+                    f'intermediate path `{shown}` is the same in consecutive steps of one run: no component is advanced between a write and the next step '
+                    f'[{"; ".join(comps)}]' + (f'; step() can finish after the write without advancing the counter: {[repr(x) for x in wit][-4:]}' if wit else '')
+                    + f'. The next step writes the path a pending plan entry points to ({ow_txt})', m.path, c.lineno)
+        # (c) within one step
+        if v[0] == 'list' or r.in_loop(c):
+            ok = any(x[0] in ('index', 'fresh') for x in lv)
+            ctx.check(ok, 'R6', cons + '::within-step', f'several datasets are written by one step under `{shown}`, which contains no per-dataset index: they all '
+                      f'get the same path ({ow_txt}) and the plan lists that one path once per dataset', m.path, c.lineno, detail={'path': shown})
+
+    # ---- R9: final output exactly when the plan is exhausted; what is recorded is what was written ------------------------------
+    for r in roots:
+        g = r.g
+        finals, inters = [], []
+        for rr, c, v in writes:
+            if rr is r:
+                (finals if _is_output(v) else inters).append((c, v))
+        adds = []  # (call, value recorded)
+        for c in pf.calls_in(r.fn):
+            if isinstance(c.func, ast.Attribute) and c.func.attr in PLAN_ADD and _self_attr_root(c.func.value) in ser and c.args:
+                adds.append((c, r.sym.ev(c.args[-1], r.fn)))
+        cons = f'{F}::{CLS}.{r.name}'
+        ctx.need(adds or finals, f'{cons}: neither records a dataset in the plan nor writes the output')
+
+        def nodes_of(call: ast.AST) -> List[pf.Node]:
+            out = g.node_of(call)
+            # a loop whose body contains the call stands for it (zero iterations only when nothing was produced)
+            for n in g.nodes:
+                if n.kind == 'loop' and n.ast is not None and any(x is call for x in ast.walk(n.ast)):
+                    out.append(n)
+            return out
+        fin_nodes = [n for c, _v in finals for n in g.node_of(c)]
+        add_nodes = [n for c, _v in adds for n in nodes_of(c)]
+        int_nodes = [n for c, _v in inters for n in g.node_of(c)]
+        no_exc = lambda a, b, lab: lab != 'exc'  # noqa: E731
+        for n in fin_nodes:
+            p = g.path_avoiding(g.entry, lambda x: x is n, lambda x: False,
+                                edge_ok=lambda a, b, lab: lab != 'exc' and not (a.kind == 'test' and _implies_finished(a.ast, lab)))
+            ctx.check(p is None, 'R9', cons + '::final write guarded by finished',
+                      f'{r.name} can write the final dataset to self._output_path while the plan still has pending inputs (no `self.finished` test on the path '
+                      f'{[repr(x) for x in (p or [])][-4:]}): the output is produced from a subset of the inputs and the rest is merged into intermediates nobody reads',
+                      m.path, n.lineno)
+            q = g.path_avoiding(n, lambda x: x in add_nodes, lambda x: False, edge_ok=no_exc) if add_nodes else None
+            ctx.check(q is None, 'R9', cons + '::nothing recorded after the final write',
+                      f'after writing the final dataset {r.name} goes on to record an entry in the plan: `finished` becomes false again and run() merges it once more',
+                      m.path, n.lineno)
+        stop = set(id(x) for x in fin_nodes + add_nodes)
+        p = g.path_avoiding(g.entry, lambda x: x is g.exit, lambda x: id(x) in stop, edge_ok=no_exc)
+        ctx.check(p is None, 'R9', cons + '::merged data re-enters the plan',
+                  f'{r.name} can return normally after removing inputs from the plan without writing the final dataset or recording the merged dataset in the plan '
+                  f'(path {[repr(x) for x in (p or [])][-4:]}): the inputs it consumed are lost', m.path, r.fn.lineno)
+        for c, av in adds:
+            recs = [av] if av[0] != 'alt' else list(av[1])
+            for rec in recs:
+                if rec[0] == 'list':
+                    rec = rec[1]
+                pv = dict(rec[2]).get('path') if rec[0] == 'rec' else None
+                ctx.need(pv is not None, f'{cons}: cannot tell which path `{pf.nsrc(c)[:60]}` records')
+                written = [(v[1] if v[0] == 'list' else v) for _c, v in inters]
+                ctx.need(not any(x[0] == 'unknown' for x in cf.leaves(pv)) or pv in written, f'{cons}: unresolved recorded path `{cf.render(pv)}`')
+                ctx.check(pv in written, 'R9', cons + '::recorded path is the written path',
+                          f'{r.name} records `{cf.render(pv)}` in the plan but the datasets it writes are {[cf.render(w) for w in written]}: the next step (or a '
+                          f'resumed run) reads a path nothing was written to', m.path, c.lineno)
+            for n in g.node_of(c):
+                q = g.path_avoiding(g.entry, lambda x: x is n, lambda x: x in int_nodes, edge_ok=no_exc) if int_nodes else [g.entry]
+                ctx.check(q is None, 'R9', cons + '::written before recorded',
+                          f'{r.name} can record a dataset in the plan before (or without) writing it: a failure in between leaves an in-memory plan that names a '
+                          f'dataset that does not exist', m.path, c.lineno)
+
+    # ---- R10: nothing the plan still needs is deleted ---------------------------------------------------------------------------
+    check_deletions(ctx, m, cm, ser, [(v[1] if v[0] == 'list' else v) for _r, _c, v in writes if not _is_output(v)])
+
+
+def _parts(v: cf.Val) -> List[cf.Val]:
+    return list(v[1]) if v[0] == 'cat' else [v]
+
+
+def _path_relation(p: cf.Val, w: cf.Val) -> str:
+    """'covers' when deleting p removes w (p equals w or names a directory above it), 'disjoint' when the two provably differ, else 'unknown'."""
+    pp, ww = _parts(p), _parts(w)
+    for i, a in enumerate(pp):
+        if i >= len(ww):
+            return 'disjoint' if a[0] == 'const' else 'unknown'
+        b = ww[i]
+        if a == b:
+            continue
+        if a[0] == 'const' and b[0] == 'const':
+            if i == len(pp) - 1 and b[1].startswith(a[1]):
+                rest = b[1][len(a[1]):]
+                return 'covers' if (a[1].endswith('/') or rest.startswith('/')) else 'disjoint'
+            if a[1].startswith(b[1]) or b[1].startswith(a[1]):
+                return 'unknown'
+            return 'disjoint'
+        if a[0] == 'slot' and b[0] == 'slot' and i == 0:
+            return 'disjoint'  # rooted at a different configured location (save path vs temp path)
+        return 'unknown'
+    if len(pp) == len(ww) or pp[-1][0] == 'const' and pp[-1][1].endswith('/'):
+        return 'covers'
+    nxt = ww[len(pp)]
+    if nxt[0] == 'const':
+        return 'covers' if nxt[1].startswith('/') else 'disjoint'
+    return 'unknown'
+
+
+def _deletion_verdict(v: cf.Val, inter: List[cf.Val]) -> Optional[str]:
+    lv = list(cf.leaves(v))
+    if any(x[0] in ('slotelem', 'field') for x in lv):
+        return 'a dataset path taken from a plan entry'
+    if v == ('slot', SAVE_SLOT[0]):
+        return 'the saved plan itself'
+    for w in inter:
+        if _path_relation(v, w) == 'covers':
+            return f'`{cf.render(v)}`, which is or contains the intermediate dataset `{cf.render(w)}` recorded in the plan,'
+    return None
+
+
+def _deletion_undecided(v: cf.Val, inter: List[cf.Val]) -> bool:
+    return any(_path_relation(v, w) == 'unknown' for w in inter)
+
+
+SAVE_SLOT = ['_save_path']
+OUTPUT_SLOT = ['_output_path']
+
+
+def check_deletions(ctx: Ctx, m: pf.Module, cm: cf.ClassModel, ser: List[str], inter: List[cf.Val]) -> None:
+    """Deleting an intermediate is safe only once no plan (in memory or on disk) lists it.  The steps mutate the in-memory plan and run() saves
+    only before the NEXT step, so a deletion inside the class of a plan entry's path / the intermediates directory / the plan file is
+    premature: the plan on disk still names the deleted dataset when the process stops."""
+    n = 0
+    resolved: Dict[Tuple[int, int], Tuple[str, cf.Val, ast.Call]] = {}
+    unresolved: Dict[Tuple[int, int], str] = {}
+
+    def owner(c: ast.Call) -> str:
+        for name, f in cm.methods.items():
+            if f.lineno <= c.lineno <= (f.end_lineno or f.lineno):
+                return name
+        return '?'
+    for name, fn0 in list(cm.methods.items()):
+        if fn0.decorator_list or not fn0.args.args or name == '__init__':
+            fn, sym = fn0, cf.Sym(m, cm, cf.named_tuples(m))
+        else:
+            r = _Root(m, name)
+            fn, sym = r.fn, r.sym
+        for c in pf.calls_in(fn):
+            if isinstance(c.func, ast.Attribute) and c.func.attr in DELETERS and c.args and _self_attr_root(c.func.value) is None:
+                site = (c.lineno, c.col_offset)  # identity of the call site only (the same call is seen again wherever its method is inlined)
+                v = sym.ev(c.args[0], fn)
+                if any(x[0] in ('unknown', 'param') for x in cf.leaves(v)) and _deletion_verdict(v, inter) is None:
+                    unresolved.setdefault(site, f'{F}::{CLS}.{owner(c)}: cannot tell what `{pf.nsrc(c)[:70]}` deletes')
+                else:
+                    resolved.setdefault(site, (owner(c), v, c))
+    for site, msg in unresolved.items():
+        if site not in resolved:
+            raise AnalysisError(msg)
+    for _site, (name, v, c) in sorted(resolved.items()):
+        why = _deletion_verdict(v, inter)
+        if why is None and _deletion_undecided(v, inter):
+            raise AnalysisError(f'{F}::{CLS}.{name}: cannot tell whether `{pf.nsrc(c)[:70]}` removes an intermediate the plan references')
+        n += 1
+        cons = f'{F}::{CLS}.{name}::{c.func.attr}({cf.render(v)})'  # type: ignore[attr-defined]
+        ctx.check(why is None, 'R10', cons, f'{name} deletes {why} (`{pf.nsrc(c)[:70]}`) although the plan saved on disk may still list it: run() saves the plan '
+                  f'only before the next step, so stopping right after this call and resuming from the saved plan reads a dataset that no longer exists',
+                  m.path, c.lineno)
+    # positive control: the recogniser sees a premature deletion in a synthetic step
+    probe = ast.parse('class K:\n def _s(self):\n  f = self._vdses[1][:2]\n  for x in f:\n   fs.rmtree(x.path)\n').body[0]
+    pm = pf.Module('<probe>', '<probe>', '', ast.Module(body=[probe], type_ignores=[]))
+    pcm = cf.ClassModel(pm, 'K')
+    psym = cf.Sym(pm, pcm, {})
+    pfn = pcm.methods['_s']
+    hit = [c for c in pf.calls_in(pfn) if isinstance(c.func, ast.Attribute) and c.func.attr in DELETERS and _deletion_verdict(psym.ev(c.args[0], pfn), [])]
+    ctx.need(len(hit) == 1, 'R10 positive control failed')
+    ctx.ok('R10', 'positive control: deletion of a plan entry path is recognised', None, nontrivial=False)
+    ctx.unit('deletion_sites', n)
+
+
+# ---------------------------------------------------------------------------------------------------------------------------
+# R7 / R8: every step takes exactly what it removes from the plan, and removes at least one input
+# ---------------------------------------------------------------------------------------------------------------------------
+def _norm_arith(e: ast.AST) -> str:
+    """Normal form of an integer expression up to commutativity of * and +."""
+    if isinstance(e, ast.BinOp) and isinstance(e.op, (ast.Mult, ast.Add)):
+        parts: List[str] = []
+
+        def flat(x: ast.AST) -> None:
+            if isinstance(x, ast.BinOp) and type(x.op) is type(e.op):  # type: ignore[attr-defined]
+                flat(x.left)
+                flat(x.right)
+            else:
+                parts.append(_norm_arith(x))
+        flat(e)
+        return ('*' if isinstance(e.op, ast.Mult) else '+').join(sorted(f'({x})' for x in parts))
+    if isinstance(e, ast.UnaryOp) and isinstance(e.op, ast.USub):
+        return '-' + _norm_arith(e.operand)
+    return pf.nsrc(e)
+
+
+def _factors(e: ast.AST) -> Optional[List[str]]:
+    """Slots whose product the expression is (`self.a * self.b`), else None."""
+    if isinstance(e, ast.BinOp) and isinstance(e.op, ast.Mult):
+        a, b = _factors(e.left), _factors(e.right)
+        return None if a is None or b is None else a + b
+    a = cf.self_attr(e)
+    return [a] if a is not None else None
+
+
+class _Slice:
+    def __init__(self, st: ast.stmt, base: ast.expr, sl: ast.Slice, kind: str, fn: pf.FuncDef):
+        self.st, self.base, self.sl, self.kind = st, base, sl, kind
+        self.base_txt = pf.nsrc(base)
+        self.slot = _self_attr_root(base)
+        self.lower = pf.expand_locals(fn, sl.lower) if sl.lower is not None else None
+        self.upper = pf.expand_locals(fn, sl.upper) if sl.upper is not None else None
+
+    def shape(self) -> Tuple[str, Optional[ast.AST]]:
+        """('head', n) for [:n], ('tail', n) for [n:], ('last', n) for [-n:], ('butlast', n) for [:-n]."""
+        lo, up = self.lower, self.upper
+        neg = lambda x: isinstance(x, ast.UnaryOp) and isinstance(x.op, ast.USub)  # noqa: E731
+        if self.sl.step is not None or (lo is not None and up is not None):
+            return ('other', None)
+        if lo is None and up is not None:
+            return ('butlast', up.operand) if neg(up) else ('head', up)
+        if lo is not None:
+            return ('last', lo.operand) if neg(lo) else ('tail', lo)
+        return ('all', None)
+
+
+COMPLEMENT = {'head': 'tail', 'last': 'butlast'}
+
+
+def _plan_slices(r: _Root, ser: List[str]) -> Tuple[List[_Slice], List[_Slice]]:
+    takes: List[_Slice] = []
+    keeps: List[_Slice] = []
+    for st in pf.walk_shallow(r.fn):
+        if not (isinstance(st, ast.Assign) and len(st.targets) == 1 and isinstance(st.value, ast.Subscript) and isinstance(st.value.slice, ast.Slice)):
+            continue
+        base = st.value.value
+        if _self_attr_root(base) not in ser:
+            continue
+        t = st.targets[0]
+        if isinstance(t, ast.Name):
+            takes.append(_Slice(st, base, st.value.slice, 'take', r.fn))
+        elif pf.nsrc(t) == pf.nsrc(base):
+            keeps.append(_Slice(st, base, st.value.slice, 'keep', r.fn))
+    return takes, keeps
+
+
+def check_progress(ctx: Ctx, m: pf.Module, cls: ast.ClassDef, ser: List[str]) -> None:
+    cm = cf.ClassModel(m, CLS)
+    roots = [_Root(m, r) for r in _step_roots(cm)]
+    need: Dict[str, Tuple[int, str]] = {}
+    lockstep: List[Tuple[str, List[str]]] = []
+
+    def require(slot: str, bound: int, why: str) -> None:
+        if slot not in need or need[slot][0] < bound:
+            need[slot] = (bound, why)
+
+    for r in roots:
+        takes, keeps = _plan_slices(r, ser)
+        cons0 = f'{F}::{CLS}.{r.name}'
+        by_base: Dict[str, Tuple[List[_Slice], List[_Slice]]] = {}
+        for t in takes:
+            by_base.setdefault(t.base_txt, ([], []))[0].append(t)
+        for k in keeps:
+            by_base.setdefault(k.base_txt, ([], []))[1].append(k)
+        top_bounds: Dict[str, str] = {}
+        for base, (ts, ks) in by_base.items():
+            cons = f'{cons0}::{base}'
+            if len(ts) != len(ks):
+                if not ks:
+                    # `del base` under `len(taken) == len(base)` is the other way of keeping nothing; a take with neither is reuse
+                    dels = [st for st in pf.walk_shallow(r.fn) if isinstance(st, ast.Delete) and any(pf.nsrc(x) == base for x in st.targets)]
+                    ctx.check(bool(dels), 'R8', cons + '::take without drop', f'{r.name} takes `{pf.nsrc(ts[0].st)[:70]}` for merging but never removes those entries from '
+                              f'`{base}`: the same inputs are taken again by the next step (merged twice, and the plan never empties)', m.path, ts[0].st.lineno)
+                    continue
+                if not ts:
+                    ctx.bad('R8', cons + '::drop without take', f'{r.name} removes entries from the plan (`{pf.nsrc(ks[0].st)[:70]}`) without taking them for merging: '
+                            f'those inputs are in no dataset', m.path, ks[0].st.lineno)
+                    continue
+                raise AnalysisError(f'{cons}: {len(ts)} slice(s) taken but {len(ks)} kept - pairing not recognised')
+            for t, k in zip(ts, ks):
+                (tk, tn), (kk, kn) = t.shape(), k.shape()
+                ctx.need(tk in COMPLEMENT and tn is not None, f'{cons}: unrecognised slice `{pf.nsrc(t.st)[:70]}`')
+                ctx.need(kn is not None and kk in ('tail', 'butlast', 'head', 'last'), f'{cons}: unrecognised slice `{pf.nsrc(k.st)[:70]}`')
+                ok = COMPLEMENT[tk] == kk and _norm_arith(tn) == _norm_arith(kn)
+                ctx.check(ok, 'R8', cons + f'::{tk} taken, rest kept',
+                          f'{r.name} merges `{pf.nsrc(t.st)[:80]}` but keeps `{pf.nsrc(k.st)[:80]}`: the two slices do not partition the list - '
+                          + ('entries between them are dropped without being merged' if COMPLEMENT.get(tk) == kk else 'entries are merged and also kept, or dropped unmerged')
+                          + f' (take bound `{pf.nsrc(tn)}`, keep bound `{pf.nsrc(kn)}`)', m.path, k.st.lineno)
+                # the take must read the list before the keep replaces it
+                tn_nodes, kn_nodes = r.g.node_of(t.st), r.g.node_of(k.st)
+                ctx.need(tn_nodes and kn_nodes, f'{cons}: slice statements not found in the CFG')
+                q = r.g.path_avoiding(r.g.entry, lambda x: x in kn_nodes, lambda x: x in tn_nodes)
+                ctx.check(q is None, 'R8', cons + f'::{tk} taken before the rest is kept', f'{r.name} can execute `{pf.nsrc(k.st)[:70]}` before `{pf.nsrc(t.st)[:70]}`: '
+                          f'the slice that is merged is taken from the already shortened list, so the first entries are dropped unmerged', m.path, k.st.lineno)
+                if pf.nsrc(t.base) == f'self.{t.slot}' and ok:
+                    top_bounds[t.slot] = _norm_arith(tn)
+                    # progress: the number of entries removed per step
+                    fs = _factors(kn)
+                    if kk == 'tail':
+                        if fs is not None:
+                            for sl in fs:
+                                require(sl, 1, f'{r.name} removes `self.{t.slot}[:{pf.nsrc(kn)}]` per step')
+                        else:
+                            need.setdefault('expr:' + pf.nsrc(kn), (1, f'{r.name} removes `self.{t.slot}[:{pf.nsrc(kn)}]` per step'))
+                elif ok and tk == 'head':
+                    # fan-in of a merge whose single result goes back into the same slot
+                    adds = [c for c in pf.calls_in(r.fn) if isinstance(c.func, ast.Attribute) and c.func.attr in PLAN_ADD
+                            and _self_attr_root(c.func.value) == t.slot and not r.in_loop(c)]
+                    a = cf.self_attr(tn)
+                    if adds and a is not None:
+                        require(a, 2, f'{r.name} replaces up to self.{a} entries of self.{t.slot} by one merged entry')
+        if len(top_bounds) >= 2:
+            lockstep.append((r.name, sorted(top_bounds)))
+            vals = set(top_bounds.values())
+            ctx.check(len(vals) == 1, 'R8', cons0 + '::lists consumed in lockstep', f'{r.name} consumes the parallel lists {sorted(top_bounds)} by different amounts '
+                      f'{top_bounds}: after the first step the i-th name no longer belongs to the i-th input', m.path, r.fn.lineno)
+        # range(..., step) over the taken files
+        for c in pf.calls_in(r.fn):
+            if pf.dotted(c.func) == 'range' and len(c.args) == 3:
+                a = cf.self_attr(pf.expand_locals(r.fn, c.args[2]))
+                if a is not None:
+                    require(a, 1, f'{r.name} iterates with range(..., self.{a})')
+    ctx.need(any(not k.startswith('expr:') for k in need), f'{F}::{CLS}: no slice of the pending inputs found in the step functions')
+
+    # lists consumed in lockstep must be validated to have the same length when the object is (re)built
+    m_i, init_i, _il = cf.inline_with_setters(m, CLS, '__init__')
+    _sp, param_of_slot, _ws, _un = _init_param_map(m, cf.ClassModel(m, CLS).methods['__init__'])
+    for rname, sl in lockstep:
+        ps = [param_of_slot.get(x) for x in sl]
+        ctx.need(all(ps), f'{F}::{CLS}.__init__: cannot tell which parameters initialise {sl}')
+        lens = {f'len({p})' for p in ps}
+        found = mention = False
+        for st in pf.walk_shallow(init_i):
+            test = st.test if isinstance(st, (ast.If, ast.Assert)) else None
+            if test is None:
+                continue
+            for cmp in [x for x in ast.walk(test) if isinstance(x, ast.Compare) and len(x.ops) == 1]:
+                sides = {pf.nsrc(cmp.left), pf.nsrc(cmp.comparators[0])}
+                if sides == lens:
+                    mention = True
+                    raises = isinstance(st, ast.If) and any(isinstance(x, ast.Raise) for x in st.body)
+                    if (isinstance(cmp.ops[0], ast.NotEq) and raises) or (isinstance(cmp.ops[0], ast.Eq) and isinstance(st, ast.Assert)):
+                        found = True
+        ctx.need(found or not mention, f'{F}::{CLS}.__init__: unrecognised comparison of {sorted(lens)}')
+        ctx.check(found, 'R8', f'{F}::{CLS}.__init__::{"/".join(sl)} same length', f'{rname} consumes {sl} in lockstep but __init__ (which also rebuilds the object '
+                  f'from a saved plan) does not reject {sorted(lens)} of different lengths: a plan with fewer names than inputs mislabels or drops samples',
+                  m.path, init_i.lineno)
+
+    check_sizes(ctx, m, cm, {k: v for k, v in need.items() if not k.startswith('expr:')}, param_of_slot)
+
+
+def _int_params(fn: pf.FuncDef) -> List[str]:
+    return [a.arg for a in fn.args.posonlyargs + fn.args.args + fn.args.kwonlyargs]
+
+
+def _analyse_writer(where: str, stmts: List[ast.stmt], recv: str, consts: Dict[str, int], entry: cf.Env, slot: str, bound: int,
+                    prefer: Dict[str, int]) -> Tuple[Optional[cf.Iv], Optional[Dict[str, int]], int]:
+    """(interval of self.<slot> over the exits that set it, witness input when it can fall below bound, number of exits setting it)."""
+    ae = cf.AbsExec(recv, consts, where)
+    out = ae.run(stmts, dict(entry))
+    if out is not None:
+        ae.exits.append(out)
+    key = f'self.{slot}'
+    ivs = [e[key] for e in ae.exits if key in e]
+    if not ivs:
+        return None, None, 0
+    iv = ivs[0]
+    for x in ivs[1:]:
+        iv = iv.join(x)
+    if iv.lo >= bound:
+        return iv, None, len(ivs)
+    rel = cf.relevant_atoms(stmts, recv, key)
+    inputs = sorted(a for a in (ae.atoms | set(entry)) if a in rel and a != key)
+    wit = cf.find_witness(stmts, recv, consts, entry, inputs, ae.int_consts | {bound}, key, bound, prefer)
+    return iv, wit, len(ivs)
+
+
+def check_sizes(ctx: Ctx, m: pf.Module, cm: cf.ClassModel, need: Dict[str, Tuple[int, str]], param_of_slot: Dict[str, str]) -> None:
+    """Interval analysis of the slots that size a step, through every writer: the constructor (also run by the decoder on every reload), property
+    setters, other methods, and stores from outside the class."""
+    consts = cm.const_env()
+    m_i, init_i, _il = cf.inline_with_setters(m, CLS, '__init__')
+    recv = init_i.args.args[0].arg
+    defaults: Dict[str, int] = {}
+    for a, d in list(zip(init_i.args.kwonlyargs, init_i.args.kw_defaults)):
+        if d is not None:
+            dv = consts.get(pf.dotted(d) or '') if not isinstance(d, ast.Constant) else (d.value if isinstance(d.value, int) else None)
+            if isinstance(dv, int):
+                defaults[a.arg] = dv
+    accepted: Dict[str, cf.Iv] = {}
+
+    def report(cons: str, slot: str, iv: Optional[cf.Iv], wit, line: int, who: str, entry_note: str = '') -> None:
+        bound, why = need[slot]
+        if iv is None:
+            return
+        if iv.lo >= bound:
+            ctx.ok('R7', cons, {'interval': repr(iv), 'needs': f'>= {bound}'})
+            return
+        ctx.need(wit is not None, f'{cons}: the interval analysis gives self.{slot} in {iv} (needs >= {bound}) but no concrete input reaching a smaller value was found')
+        got = wit.get(f'=> self.{slot}')
+        inp = ', '.join(f'{k}={v}' for k, v in wit.items() if not k.startswith('=>'))
+        ctx.bad('R7', cons, f'{who} can leave self.{slot} = {got} (interval {iv}; {why}, so it must be >= {bound}){entry_note}: with {inp} the stored value is {got}. '
+                + (f'Then every step removes 0 entries from the plan: `finished` never becomes true and run() saves and steps forever (or fails on the empty batch on every attempt) - no dataset is produced'
+                   if got is not None and got <= 0 else 'Then a merge replaces one entry by one entry: the plan never shrinks'), m.path, line)
+
+    for slot, (bound, _why) in sorted(need.items()):
+        cons = f'{F}::{CLS}.__init__::self.{slot}'
+        iv, wit, n = _analyse_writer(cons, init_i.body, recv, consts, {}, slot, bound, defaults)
+        ctx.need(iv is not None, f'{cons}: __init__ does not set the slot')
+        accepted[slot] = iv if iv.lo >= bound else cf.Iv(bound, cf.INF)
+        p = param_of_slot.get(slot)
+        report(cons, slot, iv, wit, init_i.lineno, f'the constructor (also run by Decoder._object_hook on every reload; parameter `{p}`)')
+
+    # property setters
+    for prop in sorted(cm.setters):
+        m_s, fn_s, _ = cf.inline_with_setters(m, CLS, prop, target_is_setter=True)
+        written = {a for a, _n, _h in _mutations(fn_s)} & set(need)
+        for slot in sorted(written):
+            bound = need[slot][0]
+            ps = [a.arg for a in fn_s.args.args[1:]]
+            ctx.need(len(ps) == 1, f'{F}::{CLS}.{prop}.setter: unexpected signature')
+            entry = {ps[0]: accepted[slot]}
+            for other in need:
+                if other != slot:
+                    entry[f'self.{other}'] = accepted[other]
+            cons = f'{F}::{CLS}.{prop}.setter::self.{slot}'
+            pv = defaults.get(param_of_slot.get(slot, ''), None)
+            iv, wit, _n = _analyse_writer(cons, fn_s.body, fn_s.args.args[0].arg, consts, entry, slot, bound, {ps[0]: pv} if pv is not None else {})
+            report(cons, slot, iv, wit, fn_s.lineno, f'the public setter `{prop}`', f' although it is given a value the constructor accepts ({ps[0]} in {accepted[slot]})')
+
+    # other stores: methods other than __init__, and code outside the class (e.g. the resume path of new_combiner)
+    props_to_slots: Dict[str, Set[str]] = {}
+    for prop, f in cm.setters.items():
+        ws = {a for a, _n, _h in _mutations(f)} & set(need)
+        if ws:
+            props_to_slots[prop] = ws
+    attrs = set(need) | set(props_to_slots)
+    n_ext = 0
+    for q, fn, st, attr in _slot_writes_outside_init(m, cm, attrs):
+        obj = st.targets[0].value.id if isinstance(st, ast.Assign) and isinstance(st.targets[0], ast.Attribute) else getattr(getattr(st, 'target', None), 'value', ast.Name(id='?')).id  # type: ignore[union-attr]
+        in_class = q.startswith(CLS + '.')
+        if in_class and q.split('.')[1] in cm.setters and fn is cm.setters[q.split('.')[1]]:
+            continue  # analysed above
+        if in_class and attr in props_to_slots and fn.args.args and obj == fn.args.args[0].arg and q.split('.')[1] == '__init__':
+            continue
+        n_ext += 1
+        # the function with stores through setters on `obj` inlined
+        g = _copy_with_setters(fn, obj, cm)
+        top = m.func(q.split('.')[0]) if not in_class else None
+        entry: cf.Env = {}
+        forwarded: Dict[str, str] = {}
+        if top is not None:
+            for c in pf.calls_in(top, into_nested_defs=True):
+                if pf.dotted(c.func) == CLS:
+                    for k in c.keywords:
+                        if isinstance(k.value, ast.Name) and k.arg is not None:
+                            forwarded[k.arg] = k.value.id
+        else:
+            for other in need:
+                entry[f'self.{other}'] = accepted[other]
+        for slot in sorted(props_to_slots.get(attr, {attr}) & set(need)):
+            bound = need[slot][0]
+            p = param_of_slot.get(slot)
+            e2 = dict(entry)
+            note = ''
+            if p in forwarded:
+                # the very value the fresh path hands to the validating constructor: in the constructor's accepted domain
+                e2[forwarded[p]] = accepted[slot]
+                note = f' although `{forwarded[p]}` is a value the constructor accepts ({accepted[slot]})'
+            cons = f'{F}::{q}::{obj}.{attr} = {pf.nsrc(getattr(st, "value", st))[:50]}'
+            g2 = g
+            if in_class and obj == (fn.args.args[0].arg if fn.args.args else None):
+                rcv = obj
+            else:
+                rcv = obj
+            iv, wit, _n = _analyse_writer(cons, g2.body, rcv, consts, e2, slot, bound, {forwarded[p]: defaults[p]} if p in forwarded and p in defaults else {})
+            ctx.need(iv is not None, f'{cons}: store not reached by the interval analysis')
+            report(cons, slot, iv, wit, st.lineno, f'`{pf.nsrc(st)[:70]}` in {q}', note)
+    ctx.unit('size_slot_writers', n_ext + len(need))
+
+
+def _copy_with_setters(fn: pf.FuncDef, obj: str, cm: cf.ClassModel) -> pf.FuncDef:
+    """Copy of fn in which `obj.prop = v` is replaced by the body of the property's setter (receiver obj)."""
+    import copy as _copy
+    g = _copy.deepcopy(fn)
+    helpers: Dict[str, pf.FuncDef] = {}
+    for prop, f in cm.setters.items():
+        h = _copy.deepcopy(f)
+        h.decorator_list = []
+        h.name = cf.SETTER_PREFIX + prop
+        helpers[h.name] = h
+    tr = cf._SetterStores(obj, set(cm.setters))
+    g.body = [tr.visit(st) for st in g.body]
+    il = cf.Inliner(helpers, obj, 3)
+    il.run(g)
+    left = [c for c in pf.calls_in(g) if isinstance(c.func, ast.Attribute) and c.func.attr.startswith(cf.SETTER_PREFIX)]
+    if left or tr.left:
+        raise AnalysisError(f'{F}::{fn.name}: store through a property setter on `{obj}` that cannot be inlined ({il.skipped[:2]})')
+    ast.fix_missing_locations(g)
+    return g
+
+
 def run(ctx: Ctx) -> None:
-    ctx.explanation = ('Slot / to_dict / __init__ / decoder-hook tables compared key by key; CFG dominance of save over step in run; the statements of '
-                       'calc_parts interpreted exactly for every (contig length, interval size) in 1..80 x 1..80 and for the real mitochondrial contigs.')
+    ctx.explanation = ('Slot / to_dict / __init__ / decoder-hook tables compared key by key; CFG dominance of save over step in run; symbolic components of '
+                       'every intermediate output path classified as fresh per object / persisted / reset on reload; interval analysis of the slots that size a '
+                       'step through all their writers (constructor guards, property setters, stores on the resume path) with concrete witnesses; take/keep slice '
+                       'pairs of the pending lists compared; the statements of calc_parts interpreted exactly for every (contig length, interval size) in '
+                       '1..80 x 1..80 and for the real mitochondrial contigs.')
     ctx.rule('R1', 'attributes mutated by the step functions are serialised slots (or on the frozen transient list)', 5)
     ctx.rule('R2', 'saved plan complete and loadable: slots <-> to_dict keys <-> __init__ parameters <-> decoder inverses', 45)
     ctx.rule('R3', 'run saves before every step and after the last; save/load go through Encoder.to_dict / Decoder._object_hook', 5)
     ctx.rule('R4', 'even genome partitioning covers every base of a contig exactly once (evaluated domain)', 1)
     ctx.rule('R5', 'no interval of the even genome partitioning is longer than the requested size (evaluated domain)', 3)
+    ctx.rule('R6', 'every intermediate dataset path is distinct from every path the plan may still reference: across save/resume (a component fresh per object '
+                   'or a persisted counter), across the steps of one run (a counter advanced after every write) and within a step (an index)', 5)
+    ctx.rule('R7', 'every step removes at least one input: the slots that size a step (batch size, branch factor) stay >= their minimum through every writer', 4)
+    ctx.rule('R8', 'a step merges exactly the entries it removes from the plan: take/keep slices partition the pending list, in that order, parallel lists in lockstep', 9)
+    ctx.rule('R9', 'the final dataset is written exactly when the plan is exhausted; otherwise the merged dataset is written, then recorded under the written path', 12)
+    ctx.rule('R10', 'nothing a saved plan may still reference is deleted (plan entries, the intermediates directory, the plan file)', 2)
     ctx.assume('math.ceil(a / b) is modelled with exact rationals (float rounding of very large quotients is not modelled)')
     ctx.assume('hl.Interval(start, end, includes_start, includes_end) denotes the locus positions start..end with the stated closedness')
+    ctx.assume('uuid.uuid4 / uuid1 / secrets / os.urandom / clock reads never repeat a value (closed table FRESH in engines/c38facts.py); uuid5 / uuid3 / hashes are functions of their arguments')
+    ctx.assume('a caller of a public setter, and the resume path of new_combiner, pass values the constructor would accept (the same value is forwarded to the validating constructor on the fresh path)')
     m = pf.load(F)
     ctx.unit('files', 2)
     cls = m.cls(CLS)
     ser, _slots = check_slots(ctx, m, cls)
-    check_roundtrip(ctx, m, cls, ser)
-    check_run(ctx, m, cls)
-    check_partitioning(ctx, m)
+    declined: List[str] = []
+    for part in (lambda: check_roundtrip(ctx, m, cls, ser), lambda: check_run(ctx, m, cls), lambda: check_paths(ctx, m, cls, ser, _slots),
+                 lambda: check_progress(ctx, m, cls, ser), lambda: check_partitioning(ctx, m)):
+        try:
+            part()
+        except AnalysisError as e:  # keep going: a violation established by another rule must not be masked by a decline here
+            declined.append(str(e))
+    if declined:
+        raise AnalysisError(' | '.join(declined))
